@@ -683,6 +683,22 @@ impl Property for C19 {
                 }
             }
         }
+        if prefill >= 65_540 && rng.chance(1, 2) {
+            // a duplicate of a value around the middle (or half a storage below the end) appended on top, then fetched:
+            // scans that work in halves or from both ends must still return the first occurrence
+            let n = prefill as u64;
+            let k = match rng.below(3) {
+                0 => (n - 1) / 2,
+                1 => n / 2 + rng.below(2),
+                _ => ((n - 1) / 2).saturating_sub(1 + rng.below(2)),
+            } as u32;
+            let mut pre = vec![Op::Append(PREFILL_CLASS + k), Op::Fetch(PREFILL_CLASS + k)];
+            if rng.chance(1, 2) {
+                pre.swap(0, 1);
+            }
+            pre.extend(ops.drain(..));
+            ops = pre;
+        }
         let kind = rng.below(8);
         let huge_elem = if !zst && prefill == 0 && rng.chance(1, 1500) {
             match rng.below(12) {
